@@ -580,8 +580,24 @@ class Bus {
     if (!hostArbPending) return;
     hostArbPending = false;
     BusByte& e = log[hostArbLogIdx];
-    if (e.b == e.hostWrote) { hostOwnsBus = true; beginHostExchange(); }
+    if (e.b == e.hostWrote) {
+      hostOwnsBus = true; beginHostExchange();
+      // noise right behind the address of the host (a symbol of somebody who does not follow the rules, or a SYN of the generator),
+      // handed over in one read together with the echo of the address: the host has won, but must not continue into it
+      if (strayAfterArbPct > 0 && rng && !g.rx.empty() && hostArbLogIdx + 1 == log.size() && (int)rng->below(100) < strayAfterArbPct) {
+        size_t echoIdx = g.rx.size() - 1;
+        int64_t t = lastByteTime + SYM;
+        if (rng->chance(1, 3)) emitSyn(t, false, 0);      // (horizon 0: nothing further is grouped behind this SYN)
+        else { emit(t, rng->pick(std::vector<uint8_t>{0x10, 0x00, 0xFF, 0x55, 0xA9, 0x03}), 'N'); tr.phase = 5; }   // (nobody answers a telegram damaged like that)
+        // always in one read with the echo: handed over separately the host would have sent its next symbol in between, at the very
+        // moment the stray symbol is on the wire - a collision this model does not resolve
+        g.rx[echoIdx].t = g.rx.back().t;
+        strays++;
+      }
+    }
   }
+  int strayAfterArbPct = 0;
+  long strays = 0;
 
   /** a foreign master writes its address in the same slot as the host */
   void resolveArbitration(uint8_t foreignQQ, int64_t t) {
